@@ -637,6 +637,8 @@ def m_sum(I, args, kw):
 @model(builtins.int)
 def m_int(I, args, kw):
     v = args[0] if args else 0
+    if isinstance(v, Opaque) and I.lenient:
+        return Opaque(f"int({v.tag})")
     if isinstance(v, SV):
         if v.k == "int":
             return v
@@ -656,6 +658,8 @@ def m_int(I, args, kw):
 @model(builtins.float)
 def m_float(I, args, kw):
     v = args[0] if args else 0.0
+    if isinstance(v, Opaque) and I.lenient:
+        return Opaque(f"float({v.tag})")
     if isinstance(v, SV):
         if v.k == "real":
             return v
@@ -677,6 +681,8 @@ def m_bool(I, args, kw):
 @model(builtins.str)
 def m_str(I, args, kw):
     v = args[0] if args else ""
+    if isinstance(v, Opaque) and I.lenient:
+        return Opaque(f"str({v.tag})", cls=str)
     if isinstance(v, SV):
         if v.k == "str":
             return v
